@@ -1,6 +1,6 @@
 package main
 
-// C17: a B-tree store behaves as a correctly ordered collection (two structural clauses only).
+// C17: a B-tree store behaves as a correctly ordered collection (three structural clauses only).
 
 import (
 	"fmt"
@@ -11,7 +11,7 @@ import (
 
 func init() {
 	register("C17", propMeta{
-		Explanation: "Decides two structural necessary conditions of ordered-collection behaviour, not the behaviour: (R1) updates that would change a key's order are rejected: in UpdateCurrentKey and UpdateCurrentItem the comparison `compare(currentKey, newKey) != 0` with an error return dominates every store of the new key into the item and the node slot; UpdateKey / UpdateCurrentItem reach those two only; (R2) sibling rotation moves exactly one parent separator, so the sibling helpers must return the ADJACENT child only: getLeftSibling / getRightSibling contain no loop, take the node's own index from getIndexOfNode and ask the parent for the child at index-1 / index+1 through getChild (a nil child yields nil: no vacancy is seen across an emptied sibling); the vacancy tests and the distribute functions obtain siblings only through these helpers.",
+		Explanation: "Decides three structural necessary conditions of ordered-collection behaviour, not the behaviour: (R1) updates that would change a key's order are rejected: in UpdateCurrentKey and UpdateCurrentItem the comparison `compare(currentKey, newKey) != 0` with an error return dominates every store of the new key into the item and the node slot; UpdateKey / UpdateCurrentItem reach those two only; (R2) sibling rotation moves exactly one parent separator, so the sibling helpers must return the ADJACENT child only: getLeftSibling / getRightSibling contain no loop, take the node's own index from getIndexOfNode and ask the parent for the child at index-1 / index+1 through getChild (a nil child yields nil: no vacancy is seen across an emptied sibling); the vacancy tests and the distribute functions obtain siblings only through these helpers. (R3) cursor stepping: in moveToNext / moveToPrevious every descent step is taken only after the nil-child escape of the same direction was consulted on the node being left, initially and between successive descent steps.",
 		DoesNotCover: "Splits, rotations, deletes, scan order against a model, and Count after arbitrary operation sequences are value-level behaviour and are NOT decided here (C05/C06 cover the duplicate check and the count bookkeeping).",
 	}, runC17)
 }
@@ -123,5 +123,24 @@ func runC17(c *Ctx) {
 			}
 		}
 		c.Check(uses && !direct, r2, shortKey(k)+" obtains siblings through the sibling helpers only", f.Decl.Pos(), "uses getLeft/RightSibling, no direct child indexing", fmt.Sprintf("uses helper: %v, indexes children directly: %v", uses, direct), nil)
+	}
+
+	r3 := c.Rule("R3", "cursor stepping: in moveToNext / moveToPrevious every descent step (getChild) is taken only after the nil-child escape of the same direction was consulted on the node being left - from the entry and again between two successive descent steps - because a delete can leave a nil child on any level", 6)
+	for _, spec := range []struct{ fn, escape, wrong string }{
+		{"btree.Node.moveToNext", "btree.Node.goRightUpItemOnNodeWithNilChild", "btree.Node.goLeftUpItemOnNodeWithNilChild"},
+		{"btree.Node.moveToPrevious", "btree.Node.goLeftUpItemOnNodeWithNilChild", "btree.Node.goRightUpItemOnNodeWithNilChild"},
+	} {
+		f := w.Fn(spec.fn)
+		g := w.G(f)
+		c.Analysed(f)
+		desc := g.Find(calls("btree.Node.getChild"))
+		esc := g.Find(calls(spec.escape))
+		c.Check(len(desc) >= 1 && len(esc) >= 1, r3, shortKey(spec.fn)+": descent and nil-child escape present", f.Decl.Pos(), fmt.Sprintf("%d getChild, %d escape call(s)", len(desc), len(esc)), fmt.Sprintf("found %d getChild and %d %s calls", len(desc), len(esc), shortKey(spec.escape)), nil)
+		c.Check(len(g.Find(calls(spec.wrong))) == 0, r3, shortKey(spec.fn)+": escape of its own direction", f.Decl.Pos(), "does not call "+shortKey(spec.wrong), "calls the escape of the opposite direction", nil)
+		offs := g.MustPrecede(calls(spec.escape), calls("btree.Node.getChild"))
+		c.Offences(g, offs, r3, shortKey(spec.fn)+": first descent step is preceded by the nil-child escape", f.Decl.Pos(), "getChild is dominated by the escape", "a descent step is reachable without consulting the nil-child escape")
+		offs = g.MustFollow(desc, calls(spec.escape), calls("btree.Node.getChild"))
+		c.Offences(g, offs, r3, shortKey(spec.fn)+": the escape is consulted again before every further descent step", f.Decl.Pos(), "between two getChild calls the escape is always called",
+			"after one descent step the next one is taken without consulting the nil-child escape on the new node: when that node's child in the scan direction is nil (left behind by deletes) the scan reports the end of the tree instead of stepping to the node's own slot")
 	}
 }
